@@ -85,7 +85,10 @@ def gen_value(rng, depth=0):
         return {rng.choice(["k", 1, (1, 2), "é", b"b"]): gen_value(rng, depth + 1) for _ in range(rng.randrange(0, 3))}
     if r < 0.96:
         return set(rng.sample(range(20), rng.randrange(0, 4)))
-    return frozenset(rng.sample(["a", "b", 3, 4.5], rng.randrange(0, 3)))
+    # (several strings in one set would make the dump depend on the interpreter's hash seed)
+    if rng.random() < 0.3:
+        return frozenset([rng.choice(["a", "é", b"b"])])
+    return frozenset(rng.sample([7, 3, 4.5, 11], rng.randrange(0, 3)))
 
 
 def gen(rng, tier):
